@@ -11,6 +11,9 @@ CONSTANTS
     MaxNow = 6
     MaxOps = 4
     MaxQ = 2
+    MaxLen = 9
+    BigOn = 1
+    WithFault = TRUE
     EmptyOn = 0
     Hist = FALSE
 INVARIANT Inv
